@@ -116,6 +116,10 @@ pub enum Op {
     CloneFromSlice(i8),
     CloneFromToodee(i8),
     DropHeld,
+    /// (C05 only) remove a row / column, take `front` / `back` items from the drain and leak it
+    /// (`mem::forget`): elements may be lost (C12), but none may be dropped twice or stay
+    /// reachable after being dropped, now or later; the model is re-read afterwards
+    LeakDrain { row: bool, at: Ix, front: u8, back: u8 },
     /// (C05 only) run `op` with the k-th call into the element type's Clone / Default / Drop /
     /// comparison panicking: which elements survive is unspecified (C11), but nothing may be
     /// dropped twice or stay reachable after it was dropped; the model is re-read afterwards
@@ -1121,6 +1125,49 @@ impl<'c, E: Elem + Clone + Default + Ord> Eng<'c, E> {
             Op::DropHeld => {
                 self.held.clear();
             }
+            Op::LeakDrain { row, at, front, back } => {
+                let dim = if *row { r } else { c };
+                if shape_mode || dim == 0 {
+                    return Ok(());
+                }
+                let i = at.resolve(dim).min(dim - 1);
+                let t = &mut self.t;
+                let held = &mut self.held;
+                let (row, front, back) = (*row, *front % 4, *back % 4);
+                let res = catch(move || {
+                    fn take<E, D: Iterator<Item = E> + DoubleEndedIterator>(d: &mut D, f: u8, b: u8, held: &mut Vec<E>) {
+                        for _ in 0..f {
+                            if let Some(e) = d.next() {
+                                held.push(e);
+                            }
+                        }
+                        for _ in 0..b {
+                            if let Some(e) = d.next_back() {
+                                held.push(e);
+                            }
+                        }
+                    }
+                    if row {
+                        let mut d = t.remove_row(i);
+                        take(&mut d, front, back, held);
+                        std::mem::forget(d);
+                    } else {
+                        let mut d = t.remove_col(i);
+                        take(&mut d, front, back, held);
+                        std::mem::forget(d);
+                    }
+                });
+                let _ = res;
+                self.any_panic = true; // elements may have been leaked: the no-leak clause no longer applies
+                self.ctx.class("drain-leaked");
+                let t = &self.t;
+                let (c2, r2) = (t.num_cols(), t.num_rows());
+                if c2.checked_mul(r2) == Some(t.data().len()) && (c2 == 0) == (r2 == 0) {
+                    self.m = Model::from_flat(c2, r2, &ids_of(t));
+                } else {
+                    self.diverged = true;
+                }
+            }
             Op::Faulted { .. } => unreachable!(),
         }
         Ok(())
@@ -1167,6 +1214,7 @@ fn op_name(op: &Op) -> &'static str {
         Op::CloneFromSlice(_) => "clone_from_slice",
         Op::CloneFromToodee(_) => "clone_from_toodee",
         Op::DropHeld => "drop_held",
+        Op::LeakDrain { .. } => "leaked-drain",
         Op::Faulted { op, .. } => op_name(op),
     }
 }
@@ -1398,6 +1446,7 @@ pub fn op() -> impl Strategy<Value = Op> {
 
 pub fn history(elems: &'static [(u32, ElemKind)], valid_only_p: f64, max_ops: usize, fault_p: f64) -> impl Strategy<Value = History> {
     let elem = proptest::sample::select(elems.iter().flat_map(|(w, k)| std::iter::repeat(*k).take(*w as usize)).collect::<Vec<_>>());
-    let one = (op(), prop::bool::weighted(fault_p), 0u8..12).prop_map(|(op, f, k)| if f { Op::Faulted { op: Box::new(op), k } } else { op });
+    let leak = (any::<bool>(), ix_valid(), 0u8..4, 0u8..4).prop_map(|(row, at, front, back)| Op::LeakDrain { row, at, front, back });
+    let one = (op(), prop::bool::weighted(fault_p), 0u8..12, prop::bool::weighted(fault_p / 2.0), leak).prop_map(|(op, f, k, l, leak)| if f { Op::Faulted { op: Box::new(op), k } } else if l { leak } else { op });
     (elem, prop::bool::weighted(valid_only_p), prop_oneof![30 => ctor(6), 1 => ctor(40)], prop::collection::vec(one, 0..max_ops)).prop_map(|(elem, valid_only, ctor, ops)| History { elem, valid_only, ctor, ops })
 }
